@@ -437,6 +437,15 @@ fn judge_generator(case: &Case, l: &mut Local) {
     if case.kind == "box" {
         l.check("box is watertight", "", undirected.values().all(|c| *c == 2), mk, String::new);
     }
+    // the generated primitive has the requested size: width x height x depth along x, y, z from the origin
+    // for the box; the requested radius about the z axis and height along it for the cylinder
+    let ext = |k: usize| (v.iter().map(|p| p[k]).fold(f64::MAX, f64::min), v.iter().map(|p| p[k]).fold(f64::MIN, f64::max));
+    let sized = if case.kind == "box" {
+        (0..3).all(|k| ext(k).0 == 0.0 && (ext(k).1 - case.dims[k]).abs() <= 1e-12 * case.dims[k])
+    } else {
+        v.iter().all(|p| ((p.x * p.x + p.y * p.y).sqrt() - case.dims[0]).abs() <= 1e-12 * case.dims[0]) && ext(2).0 == 0.0 && (ext(2).1 - case.dims[1]).abs() <= 1e-12 * case.dims[1]
+    };
+    l.check("generated mesh has the requested dimensions", &case.kind, sized, mk, || format!("{:?}: extents x {:?} y {:?} z {:?}", case.dims, ext(0), ext(1), ext(2)));
     let patches = mesh.get_patches();
     l.check("generated mesh is a single patch", &case.kind, patches.len() == 1, mk, || format!("{} patches", patches.len()));
 }
@@ -531,11 +540,19 @@ pub fn cases(tier: Tier) -> Vec<Case> {
         }
         let mut c = blank("voxels");
         c.cells = (0..12).filter(|i| mask & (1 << i) != 0).map(|i| cells[i]).collect();
+        // voxel indices are signed: the same set straddling the origin (smaller subsets only, to keep the count)
+        if mask.count_ones() <= 3 {
+            let mut neg = blank("voxels");
+            neg.cells = c.cells.iter().map(|v| [v[0] - 1, v[1] - 1, v[2] - 2]).collect();
+            out.push(neg);
+        }
         out.push(c);
     }
     for extra in [
         vec![[0, 0, 0], [1, 1, 1], [2, 2, 2], [3, 3, 3]],
         vec![[0, 0, 0], [2, 0, 0], [4, 0, 0]],
+        vec![[-3, 0, 0], [-2, 0, 0], [-1, 0, 0], [0, 0, 0], [1, 0, 0], [2, 0, 0]],
+        vec![[-1, -1, -1], [0, 0, 0], [-2, -2, -2], [3, -4, 5], [4, -5, 4]],
         vec![[0, 0, 0], [1, 0, 0], [0, 1, 0], [5, 5, 5], [6, 5, 5], [5, 6, 6]],
     ] {
         let mut c = blank("voxels");
@@ -586,7 +603,7 @@ pub fn cases(tier: Tier) -> Vec<Case> {
 
 pub fn run(tier: Tier) -> i32 {
     let mut cx = Ctx::new("C12", tier, "model_checking");
-    cx.rule = "inputs: every list of <= 4 oriented triangles over 5 vertices and <= 4 (thorough: 5) over 6 vertices (thorough: also <= 3 over 7) (all small disks, fans, bow-ties, pillows, flipped and non-manifold configurations), 10 structured meshes each also with every single face flipped, every subset of <= 5 cells of a 2x2x3 voxel block, every ordered list of <= 4 directed pairs over 5 indices, box and cylinder generators; environment: for every mesh / voxel set all hash-map and hash-set traversal orders are choice points answered by the explorer (all permutations up to 4 elements, rotations and reversals beyond), explored exhaustively up to 2 departures from the default order; termination decided by tick budgets 10*3F+100. distinct = distinct inputs".into();
+    cx.rule = "inputs: every list of <= 4 oriented triangles over 5 vertices and <= 4 (thorough: 5) over 6 vertices (thorough: also <= 3 over 7) (all small disks, fans, bow-ties, pillows, flipped and non-manifold configurations), 10 structured meshes each also with every single face flipped, every subset of <= 5 cells of a 2x2x3 voxel block (subsets of <= 3 also shifted to straddle the origin), every ordered list of <= 4 directed pairs over 5 indices, box and cylinder generators; environment: for every mesh / voxel set all hash-map and hash-set traversal orders are choice points answered by the explorer (all permutations up to 4 elements, rotations and reversals beyond), explored exhaustively up to 2 departures from the default order; termination decided by tick budgets 10*3F+100. distinct = distinct inputs".into();
     cx.bounds = json!({"max_deviations": MAX_DEV, "execution_cap_per_input": EXEC_CAP, "faces_v5": 4, "faces_v6": tier.pick(4, 5), "faces_v7": tier.pick(0, 3), "pair_list_len": 4});
     cx.require(&["patch boundary loops on a consistently wound mesh", "edge shared by more than two faces", "closed mesh", "mesh with boundary", "inconsistent winding", "vertex with more than two boundary edges", "structured mesh", "structured mesh with one face flipped", "voxel set with several clusters", "voxel set with one cluster", "path or cycle input", "branching input", "box generator", "cylinder generator"]);
     cx.assume("iteration orders beyond 4 elements are represented by rotations and reversals of the sorted order; at most 2 non-default traversals per execution");
